@@ -59,7 +59,9 @@ RULE = (
     "TimeoutError, re-raised/constructed parse error, RuntimeError, OSError(EBADF)} x hook position {on_connection as coroutine, "
     "on_connection generator before/after its yield, handle before first yield, after n-th request before/after the answer, "
     "while handling a thrown parse error or yielded-timeout error, on_disconnection} x TCP set-up fault {getpeername ENOTCONN "
-    "on the accepted socket, setsockopt error inside connect_accepted_socket (ENOTCONN/EINVAL/ECONNRESET), peer RST right "
+    "on the accepted socket, setsockopt error inside connect_accepted_socket (ENOTCONN/EINVAL/ECONNRESET), the listener's next 1-2 "
+    "accept() calls fail with an errno the listener documents as survivable (15 'ignorable' ones incl. ECONNABORTED/EPROTO, 4 "
+    "'capacity' ones: EMFILE/ENFILE/ENOMEM/ENOBUFS -> 0.1 s pause; names hard-coded in the check, not imported), peer RST right "
     "after connect, peer FIN right after connect; TLS harness (TLS 1.2/1.3 server, real TLS clients, reference-TLS faulty peer) adds: "
     "garbage instead of a ClientHello, stalled handshake -> handshake timeout, FIN or RST after k bytes of the client's handshake "
     "(k in record header / ClientHello / its end / second flight / exact end / application data)} x handle-generator length "
@@ -89,6 +91,21 @@ CLOSE_WAIT = 90.0  # virtual seconds within which the faulty connection has to b
 
 class CustomError(Exception):
     pass
+
+
+# accept(2) errors the listener documents as survivable (lowlevel/constants.py).  The names are spelled out HERE on
+# purpose: importing the repo's constants would make the check blind to a change of those very sets.
+IGNORABLE_ACCEPT_NAMES = (
+    "EPERM", "ECONNABORTED", "EPROTO", "ENETDOWN", "ENOPROTOOPT", "EHOSTDOWN", "ENONET", "EHOSTUNREACH", "EOPNOTSUPP",
+    "ENETUNREACH", "ENOSR", "ESOCKTNOSUPPORT", "EPROTONOSUPPORT", "ETIMEDOUT", "ECONNRESET",
+)  # "can be skipped": the accept loop just goes on
+CAPACITY_ACCEPT_NAMES = ("EMFILE", "ENFILE", "ENOMEM", "ENOBUFS")  # accepting pauses 0.1 s, then goes on
+ACCEPT_ERRNOS: tuple[tuple[str, int, str], ...] = tuple(
+    (name, getattr(errno, name), kind)
+    for kind, names in (("ignorable", IGNORABLE_ACCEPT_NAMES), ("capacity", CAPACITY_ACCEPT_NAMES))
+    for name in names
+    if hasattr(errno, name)
+)
 
 
 EXC_KINDS = ("ValueError", "Custom", "Group", "GroupMixed", "ConnectionResetError", "BrokenPipeError", "ClientClosedError", "TimeoutError", "Parse", "RuntimeError", "EBADF")
@@ -152,6 +169,7 @@ class Plan:
         self.setup: str | None = None  # TCP only
         self.setup_errno = errno.ENOTCONN
         self.setup_k = 0  # TLS mid-handshake faults: index into the candidate byte offsets
+        self.accept_errnos: list[str] = []  # setup "accept": names of the errors the next accept() calls fail with
         self.hs_failed: bool | None = None  # TLS: True when the server cannot have completed the handshake
         self.start = 0  # in U
         self.pre = 0  # good requests before the fault trigger
@@ -161,7 +179,7 @@ class Plan:
         self.fired_at_gens = 0
 
     def describe(self) -> dict:
-        return {k: getattr(self, k) for k in ("name", "position", "exc", "n", "post_send", "thrown", "setup", "setup_errno", "setup_k", "start", "pre", "post", "gap", "fired")}
+        return {k: getattr(self, k) for k in ("name", "position", "exc", "n", "post_send", "thrown", "setup", "setup_errno", "setup_k", "accept_errnos", "start", "pre", "post", "gap", "fired")}
 
 
 class ConnState:
@@ -188,6 +206,8 @@ def _draw_plan(world: World, name: str, positions: tuple[str, ...], setups: tupl
         p.setup = setups[world.choose("f.setup", len(setups))]
         p.setup_errno = (errno.ENOTCONN, errno.EINVAL, errno.ECONNRESET)[world.choose("f.setup_errno", 3)]
         p.setup_k = world.choose("f.setup_k", 10)
+        if p.setup == "accept":
+            p.accept_errnos = [ACCEPT_ERRNOS[world.choose("f.accept_errno", len(ACCEPT_ERRNOS))][0] for _ in range(1 + world.choose("f.accept_n", 2))]
     if kind <= 2 or not setups:
         p.position = positions[world.choose("f.pos", len(positions))]
         p.exc = EXC_KINDS[world.choose("f.exc", len(EXC_KINDS))]
@@ -361,6 +381,8 @@ def _site(plans: list[Plan]) -> str:
         if p.fired:
             return f"{p.position}/{p.exc}"
     for p in plans:
+        if p.setup == "accept":
+            return "setup-accept/" + "+".join(name for q in plans if q.setup == "accept" for name in q.accept_errnos)
         if p.setup:
             return f"setup-{p.setup}"
     return "nofault"
@@ -371,7 +393,7 @@ class Variant:
     """transport variant of the TCP harness (plain here; TLS plugs in the same way)"""
 
     name = "tcp"
-    setups: tuple[str, ...] = ("getpeername", "setsockopt", "reset", "close")
+    setups: tuple[str, ...] = ("getpeername", "setsockopt", "reset", "close", "accept", "accept")
 
     def __init__(self, world: World):
         """one instance per run; may draw run-wide parameters (TLS version...)"""
@@ -397,6 +419,31 @@ class Variant:
     def raw_peer(self, world: World, sock: SimSocket, plan: Plan) -> Any:
         """scripted remote end used by the faulty client: needs write(bytes), fin(), reset(), close()"""
         return Peer(world, sock)
+
+    def before_connect(self, world: World, plan: Plan, listener: SimSocket) -> None:
+        """set-up fault "accept() itself fails": while this client's connection sits in the listen queue, the next
+        1-2 accept() calls of the listener fail with a documented-survivable errno (ignorable: e.g. ECONNABORTED for a
+        connection aborted in the queue; capacity: EMFILE & co, accepting pauses 0.1 s); the connection stays queued
+        and is accepted afterwards"""
+        if plan.setup != "accept":
+            return
+        pending: list[str] | None = getattr(listener, "c17_accept_faults", None)
+        if pending is None:
+            pending = listener.c17_accept_faults = []  # type: ignore[attr-defined]
+            by_name = {name: (code, kind) for name, code, kind in ACCEPT_ERRNOS}
+
+            def fp(sock: SimSocket, op: str) -> OSError | None:
+                if op != "accept" or not pending:
+                    return None
+                name = pending.pop(0)
+                code, kind = by_name[name]
+                world.fault("accept_error")
+                world.probe("setup@accept_" + kind)
+                world.log("accept_fails", sock.label, name)
+                return OSError(code, os.strerror(code))
+
+            listener.fault_plan = fp
+        pending.extend(plan.accept_errnos)
 
     def after_connect(self, world: World, plan: Plan, peer: Any) -> bool:
         """what the faulty peer does right after its connect() returned; True = the peer is gone (script stops)"""
@@ -492,7 +539,7 @@ class TLSTCP(Variant):
     TLSPeer-driven raw peer; extra set-up faults hit the handshake"""
 
     name = "tls"
-    setups = ("getpeername", "setsockopt", "reset", "close", "garbage", "stall", "fin_mid", "rst_mid", "garbage", "fin_mid", "rst_mid", "stall")
+    setups = ("getpeername", "setsockopt", "reset", "close", "accept", "garbage", "stall", "fin_mid", "rst_mid", "garbage", "fin_mid", "rst_mid", "stall", "accept")
     HANDSHAKE_TIMEOUT = 20.0  # virtual seconds; far above the slowest link drawn below (~6 s for a full handshake)
     SHUTDOWN_TIMEOUT = 2.0
     # byte offsets in the client's handshake stream (measured with the fixture: TLS 1.3 ClientHello 238 + CCS/Finished 80
@@ -646,6 +693,7 @@ def _h_tcp(world: World, variant_name: str) -> None:
 
         def connect() -> None:
             lst = net.listeners[(HOST, PORT)]
+            variant.before_connect(world, plan, lst)
             sock = net.connect_to_listener(lst, plan.name)
             handler.plans[sock.sockname[1]] = plan
             peer = variant.raw_peer(world, sock, plan)
@@ -707,7 +755,10 @@ def _h_tcp(world: World, variant_name: str) -> None:
                 def all_closed() -> bool:
                     return all(p.name in srv_socks and srv_socks[p.name].sim_closed for p in plans)
 
-                if not await wait_until(world, all_closed, max_time=CLOSE_WAIT, step=0.25):
+                if not await wait_until(world, lambda: all_closed() or server_task.done(), max_time=CLOSE_WAIT, step=0.25) or not all_closed():
+                    if server_task.done():
+                        exc = None if server_task.cancelled() else server_task.exception()
+                        raise _viol(family, "server-still-running", f"serve_forever ended ({type(exc).__name__}: {exc}) after faults {[p.describe() for p in plans]}", _site(plans))
                     for p in plans:
                         s = srv_socks.get(p.name)
                         if s is None or not s.sim_closed:
